@@ -4,8 +4,9 @@
 //!   validators `check_evd_sym` / `check_evd_gen` (SC.C02.Validator; residuals evaluated with
 //!   compensated dot products so that the twin is accurate far below the tolerances), over the
 //!   input families of the property's quantifier, orders 1..30, f64 and f32;
-//! * correspondence: the modelled helpers (`sort`, the tail of `tql2`, `balance`, `balbak`, the 2x2
-//!   branch of `hqr2`) against SC.C02.Corr, on random inputs and on the implementation's own
+//! * correspondence: the modelled routines (`tred2` bit-exact, `tql2` as a whole by tolerance and up to
+//!   column signs on well-separated spectra, `elmhes`, `eltran` bit-exact, `sort`, the tail of `tql2`,
+//!   `balance`, `balbak`, the 2x2 branch of `hqr2`) against SC.C02.Corr, on random inputs and on the implementation's own
 //!   intermediate state (the stages of evd(false) are run one by one through the cfg-guarded
 //!   wrappers and must reproduce evd(false) bit for bit); and a sample of the implementation's
 //!   outputs (plus corrupted copies) re-decided by the Coq validators themselves, whose verdict
@@ -1207,6 +1208,120 @@ fn corr_hqr2_case(out: &mut Out, a: &Mat) {
     }
 }
 
+
+/// tred2 through the wrapper: (rows of V, d, e) as the implementation leaves them
+fn run_tred2(a: &Mat) -> Result<(Mat, Vec<f64>, Vec<f64>), String> {
+    let a0 = a.clone();
+    guard(move || {
+        let n = a0.len();
+        let mut v: DenseMatrix<f64> = to_dense(&a0);
+        let mut d = vec![0.0f64; n];
+        let mut e = vec![0.0f64; n];
+        verif_tred2(&mut v, &mut d, &mut e);
+        (from_dense(&v), d, e)
+    })
+}
+
+/// tred2: the Gallina transliteration must reproduce (V, d, e) bit for bit; the conclusion of
+/// C02_tred2_tridiagonalises (V^T V = I, A V = V tridiag(d, e)) is also evaluated on the
+/// implementation's result, up to rounding
+fn corr_tred2_case(out: &mut Out, a: &Mat, group: &str) {
+    let n = a.len();
+    let input = json!({"entry": "tred2", "a": a});
+    match run_tred2(a) {
+        Err(msg) => out.fail("tred2_panic", &format!("tred2 panicked: {}", msg), input),
+        Ok((xv, xd, xe)) => {
+            if all_finite(&xv) && xd.iter().chain(xe.iter()).all(|x| x.is_finite()) {
+                let scale = maxabs(a).max(f64::MIN_POSITIVE);
+                let tol = 256.0 * (n as f64) * EPS64;
+                let mut worst = 0.0f64;
+                for i in 0..n {
+                    for j in 0..n {
+                        let g = dot2((0..n).map(|k| (xv[k][i], xv[k][j]))) - if i == j { 1.0 } else { 0.0 };
+                        worst = worst.max(g.abs());
+                        // (A V)_ij - (V T)_ij
+                        let av = dot2((0..n).map(|k| (a[i][k], xv[k][j])));
+                        let mut vt = xv[i][j] * xd[j];
+                        if j >= 1 {
+                            vt += xv[i][j - 1] * xe[j];
+                        }
+                        if j + 1 < n {
+                            vt += xv[i][j + 1] * xe[j + 1];
+                        }
+                        worst = worst.max((av - vt).abs() / scale);
+                    }
+                }
+                out.count("corr:tred2-conclusion-evaluated");
+                if worst > tol && maxabs(a) > 1e-290 && maxabs(a) < 1e150 {
+                    out.fail("tred2_similarity", &format!("tred2: V^T V = I / A V = V T violated by {:e} (allowed {:e})", worst, tol), input.clone());
+                }
+            }
+            out.corr(group, format!("corr_tred2 {} {} {} {}", coq_rows_f64(a), coq_rows_f64(&xv), coq_list_f64(&xd), coq_list_f64(&xe)), input);
+        }
+    }
+}
+
+/// tql2 as a whole on the state tred2 leaves: model (QL sweeps with sqrt(a^2+b^2) for hypot, then the
+/// final sort) against the implementation, by tolerance and up to the sign of each column.  Only
+/// spectra that are well separated relative to the tolerance are sent (otherwise neither the order
+/// nor the vectors are determined); the others are counted.
+fn corr_tql2_case(out: &mut Out, a: &Mat) {
+    let n = a.len();
+    let (v, d, e) = match run_tred2(a) {
+        Ok(t) => t,
+        Err(_) => return,
+    };
+    let (v0, d0, e0) = (v.clone(), d.clone(), e.clone());
+    let res = guard(move || {
+        let mut vv: DenseMatrix<f64> = to_dense(&v0);
+        let mut dd = d0.clone();
+        let mut ee = e0.clone();
+        verif_tql2(&mut vv, &mut dd, &mut ee);
+        (from_dense(&vv), dd, ee)
+    });
+    let input = json!({"entry": "tql2", "a": a, "V": v, "d": d, "e": e});
+    match res {
+        Err(_) => out.count("corr:tql2-skipped-panic"), // reported by the search oracle
+        Ok((xv, xd, _xe)) => {
+            let scale = d.iter().chain(e.iter()).fold(0.0f64, |m, x| m.max(x.abs()));
+            let sep = (0..n.saturating_sub(1)).all(|j| xd[j] - xd[j + 1] >= 0.02 * scale);
+            if !(all_finite(&xv) && xd.iter().all(|x| x.is_finite()) && scale > 1e-3 && scale < 1e3 && sep) {
+                out.count("corr:tql2-skipped-close-eigenvalues");
+                return;
+            }
+            out.corr(
+                "tql2",
+                format!("corr_tql2 (0x1p-30)%float {} {} {} {} {}", coq_rows_f64(&v), coq_list_f64(&d), coq_list_f64(&e), coq_rows_f64(&xv), coq_list_f64(&xd)),
+                input,
+            );
+        }
+    }
+}
+
+/// elmhes and eltran through the wrappers, bit-exact against the models
+fn corr_hess_case(out: &mut Out, a: &Mat, group: &str) {
+    let n = a.len();
+    if n == 0 {
+        return;
+    }
+    let a0 = a.clone();
+    let res = guard(move || {
+        let mut m: DenseMatrix<f64> = to_dense(&a0);
+        let perm = verif_elmhes(&mut m);
+        let mut v: DenseMatrix<f64> = DenseMatrix::eye(n);
+        verif_eltran(&m, &mut v, &perm);
+        (from_dense(&m), perm, from_dense(&v))
+    });
+    let input = json!({"entry": "elmhes", "a": a});
+    match res {
+        Err(msg) => out.fail("elmhes_panic", &format!("elmhes/eltran panicked: {}", msg), input),
+        Ok((xa, perm, xv)) => {
+            out.corr(&format!("elmhes{}", group), format!("corr_elmhes {} {} {}", coq_rows_f64(a), coq_rows_f64(&xa), coq_list_n(&perm)), input.clone());
+            out.corr(&format!("eltran{}", group), format!("corr_eltran {} {} {}", coq_rows_f64(&xa), coq_list_n(&perm), coq_rows_f64(&xv)), json!({"entry": "eltran", "a": xa, "perm": perm}));
+        }
+    }
+}
+
 /// run the stages of evd(false) one by one, require that they reproduce evd(false) bit for bit, and
 /// hand the intermediate states to the models
 fn corr_staged(out: &mut Out, rows: &Mat, with_models: bool) {
@@ -1233,7 +1348,7 @@ fn corr_staged(out: &mut Out, rows: &Mat, with_models: bool) {
         if all_finite(&st.v_bak) {
             corr_sort_case(out, &st.d_pre, &st.e_pre, &st.v_bak, "sort@impl-state");
         }
-        let _ = st.a_bal;
+        corr_hess_case(out, &st.a_bal, "@impl-state");
     }
 }
 
@@ -1347,6 +1462,9 @@ fn replay(path: &str) -> i32 {
         }
         "tql2_sort" => corr_tql2_sort_case(&mut out, &f64s_from_json(&inp["d"]), &rows_from_json(&inp["V"])),
         "hqr2_2x2" => corr_hqr2_case(&mut out, &rows_from_json(&inp["a"])),
+        "tred2" => corr_tred2_case(&mut out, &rows_from_json(&inp["a"]), "replay"),
+        "tql2" => corr_tql2_case(&mut out, &rows_from_json(&inp["a"])),
+        "elmhes" => corr_hess_case(&mut out, &rows_from_json(&inp["a"]), "@replay"),
         _ => {
             eprintln!("unknown replay entry");
             return 2;
@@ -1439,6 +1557,39 @@ fn main() {
             }
         }
         corr_hqr2_case(&mut out, &m);
+    }
+    // ---- correspondence: tred2 (bit-exact), tql2 (tolerance), elmhes/eltran (bit-exact) ----
+    for i in 0..24 * k {
+        let n = rng.usize_in(1, 7);
+        let fam = ["random", "lattice", "diagonal", "block-diagonal", "tridiagonal", "rank-deficient", "scaled", "repeated-eigenvalues"][i % 8];
+        let (mut m, _) = gen_sym(&mut rng, fam, n);
+        if i % 5 == 4 && n >= 3 {
+            // a row that is zero left of the diagonal: the `scale == 0` branch of tred2
+            let r = rng.usize_in(1, n - 1);
+            for j in 0..r {
+                m[r][j] = 0.0;
+                m[j][r] = 0.0;
+            }
+        }
+        corr_tred2_case(&mut out, &m, "tred2");
+    }
+    for _ in 0..16 * k {
+        let n = rng.usize_in(1, 6);
+        // distinct integer eigenvalues: well separated
+        let mut pool: Vec<i64> = (-9..=9).collect();
+        let mut lam = Vec::new();
+        for _ in 0..n {
+            let idx = rng.usize_in(0, pool.len() - 1);
+            lam.push(pool.remove(idx) as f64);
+        }
+        let m = q_lam_qt(&mut rng, &lam);
+        corr_tql2_case(&mut out, &m);
+    }
+    for i in 0..20 * k {
+        let n = rng.usize_in(1, 7);
+        let fam = ["random", "lattice", "sparse", "triangular", "companion", "badly-balanced"][i % 6];
+        let (m, _) = gen_gen(&mut rng, fam, n, false);
+        corr_hess_case(&mut out, &m, "");
     }
     // ---- correspondence: stages of evd(false) on the implementation's own state ----
     for i in 0..30 * k {
